@@ -19,10 +19,14 @@ const GUARD: usize = 16;
 const GUARD_BYTE: u8 = 0xA5;
 const POISON: u8 = 0xDD;
 const QUARANTINE_MAX_BLOCK: usize = 1 << 16;
-const QUARANTINE_MAX_TOTAL: usize = 512 << 20;
-// quarantined blocks keep their table entry: bound their number so that long runs cannot fill the table
-const QUARANTINE_MAX_BLOCKS: usize = SLOTS / 4;
-static QUARANTINED_BLOCKS: AtomicUsize = AtomicUsize::new(0);
+const QUARANTINE_MAX_TOTAL: usize = 256 << 20;
+// quarantined blocks keep their table entry; the quarantine is a FIFO ring: when it is full the oldest
+// block is really freed (and its entry tombstoned), so long runs neither fill the table nor lose the
+// use-after-free / double-free detection for recently freed blocks
+const QCAP: usize = 1 << 16;
+static mut QRING: [(usize, usize, u32); QCAP] = [(0, 0, 0); QCAP];
+static mut QHEAD: usize = 0;
+static mut QLEN: usize = 0;
 
 #[derive(Clone, Copy)]
 struct Entry {
@@ -231,15 +235,47 @@ unsafe impl GlobalAlloc for Ledger {
                 guard_ok = false;
             }
         }
-        let quarantine = e.tracked
-            && e.size <= QUARANTINE_MAX_BLOCK
-            && QUARANTINED.load(Relaxed) < QUARANTINE_MAX_TOTAL
-            && QUARANTINED_BLOCKS.load(Relaxed) < QUARANTINE_MAX_BLOCKS;
+        let quarantine = e.tracked && e.size <= QUARANTINE_MAX_BLOCK;
+        let mut evicted: [(usize, usize, u32); 4] = [(0, 0, 0); 4];
+        let mut n_ev = 0;
         if quarantine {
             TABLE[i].freed = true;
+            // make room: evict the oldest blocks (at most 4 per call)
+            while n_ev < 4 && QLEN > 0 && (QLEN >= QCAP || QUARANTINED.load(Relaxed) > QUARANTINE_MAX_TOTAL) {
+                let old = QRING[QHEAD];
+                QHEAD = (QHEAD + 1) & (QCAP - 1);
+                QLEN -= 1;
+                QUARANTINED.fetch_sub(old.1 + GUARD, Relaxed);
+                // tombstone its table entry
+                let mut j = hash(old.0);
+                let mut m = 0;
+                while m < SLOTS {
+                    let cur = TABLE[j].ptr;
+                    if cur == 0 {
+                        break;
+                    }
+                    if cur == old.0 {
+                        TABLE[j].ptr = 1;
+                        break;
+                    }
+                    j = (j + 1) & (SLOTS - 1);
+                    m += 1;
+                }
+                evicted[n_ev] = old;
+                n_ev += 1;
+            }
+            if QLEN < QCAP {
+                QRING[(QHEAD + QLEN) & (QCAP - 1)] = (p as usize, e.size, e.align);
+                QLEN += 1;
+                QUARANTINED.fetch_add(e.size + GUARD, Relaxed);
+            } else {
+                // cannot happen (room was made above); fall back to freeing
+                TABLE[i].ptr = 1;
+            }
         } else {
             TABLE[i].ptr = 1;
         }
+        let still_quarantined = quarantine && TABLE[i].ptr != 1;
         unlock();
         if mismatch {
             anomaly(3, p as usize, layout.size(), e.size);
@@ -252,10 +288,12 @@ unsafe impl GlobalAlloc for Ledger {
             LIVE_BYTES.fetch_sub(e.size, SeqCst);
             TRACKED_FREES.fetch_add(1, SeqCst);
         }
-        if quarantine {
+        for k in 0..n_ev {
+            let (op, os, oa) = evicted[k];
+            System.dealloc(op as *mut u8, Layout::from_size_align_unchecked(os + GUARD, oa as usize));
+        }
+        if still_quarantined {
             std::ptr::write_bytes(p, POISON, e.size);
-            QUARANTINED.fetch_add(e.size + GUARD, Relaxed);
-            QUARANTINED_BLOCKS.fetch_add(1, Relaxed);
         } else {
             System.dealloc(
                 p,
